@@ -190,8 +190,23 @@ def run(ctx):
     else:
         class P(Policy):
             try_mode = "ok_only"
-        ps = [p for p in Interp(fb, P()).run(cs[0], [Sym("self_"), Sym("sub")]) if p.status == "return"]
-        s = show(ps[0].result) if len(ps) == 1 else "%d paths" % len(ps)
+
+            def inline(self, fn, args, interp, path):
+                # a private helper of the wrappers (`with_deepex(self, |d| ..)`): part of the wrapper
+                b_ = interp.callee_body(fn)
+                return b_ is not None and b_["path"].startswith("expression::calculate::") and not b_.get("trait_default_of") and not b_.get("public")
+        from analysis.interp import App as _App, Variant as _Variant
+
+        def strip_ok(v):
+            if isinstance(v, _App):
+                if v.fn == ".0" and len(v.args) == 1 and isinstance(v.args[0], _App) and v.args[0].fn == "as:Ok" and len(v.args[0].args) == 1:
+                    return strip_ok(v.args[0].args[0])
+                if v.fn == "ok" and len(v.args) == 1:
+                    return strip_ok(v.args[0])
+                return _App(v.fn, [strip_ok(a) for a in v.args])
+            return v
+        ps = [p for p in Interp(fb, P()).run(cs[0], [Sym("self_"), Sym("sub")]) if p.status == "return" and not (isinstance(p.result, _Variant) and p.result.variant == "Err")]
+        s = show(strip_ok(ps[0].result)) if len(ps) == 1 else "%d paths" % len(ps)
         if re.match(r"^expression::Express::from_deepex\(mut:%s\(expression::Express::to_deepex\(self_\), closure<\{closure#\d+\}>\)\)$" % re.escape(b["path"]), s) or \
                 re.match(r"^expression::Express::from_deepex\(%s\(expression::Express::to_deepex\(self_\), closure<\{closure#\d+\}>\)\)$" % re.escape(b["path"]), s):
             chk.ok("R11.3", "flat wrapper = from_deepex(subs(to_deepex(self)))", "", loc(cs[0]["span"]))
